@@ -910,6 +910,34 @@ func (g *gen) tplCrashInBody() {
 		g.uniformBuild()
 		return
 	}
+	if g.r.chance(35) {
+		// forced variant: no input of T changes at all. A `-B` build re-runs everything (generators rewrite their files
+		// byte-identically), the process dies inside T's body, and the next plain build finds every stamp T recorded
+		// unchanged: only the interrupted build's own trace can make it re-run T (seeded change C01-r1). Consumers of
+		// generated source files are preferred: their dependency is a file whose stamp is its content.
+		var cons []*Tgt
+		for _, t := range cands {
+			for _, s := range g.p.srcsOf(t) {
+				if g.p.isGenerated(s) {
+					cons = append(cons, t)
+					break
+				}
+			}
+		}
+		if len(cons) > 0 && !g.r.chance(25) {
+			cands = cons
+		}
+		t := cands[g.r.below(len(cands))]
+		root := g.rootOver(t)
+		g.add(g.build(root))
+		op := g.build(root)
+		op.Always = true
+		op.CrashHook, op.CrashLabel = []string{"ba", "bw", "bw"}[g.r.below(3)], t.Label()
+		op.Note = "forced build, crash inside the body of " + t.Label()
+		g.add(op)
+		g.add(g.build(root))
+		return
+	}
 	t := cands[g.r.below(len(cands))]
 	root := g.rootOver(t)
 	g.add(g.build(root))
